@@ -968,6 +968,27 @@ def reencode_grid(tier):
     return cases
 
 
+def related_grid(tier):
+    """Calls whose intermediate values coincide (same mode, same number of data bits, same level) although the
+    results must differ: a plain symbol and a Structured Append sequence whose chunks have the length of that
+    symbol's content, Micro / non-Micro, in both orders.  Anything memoised on too small a key shows up as a
+    step that differs from the answer of a pristine process."""
+    cases = []
+    for text in ('1234567890', 'ABC DEF$%', 'abcdefgh'):
+        for n in range(1, 61 if tier == 'quick' else 200):
+            part = (text * (n // len(text) + 1))[:n]
+            for kw in ({}, {'error': 'M'}):
+                single = {'op': 'make', 'fn': 'make_qr', 'content': enc_content(part), 'kw': dict(kw)}
+                plain = {'op': 'make', 'fn': 'make', 'content': enc_content(part), 'kw': dict(kw, micro=False)}
+                micro = {'op': 'make', 'fn': 'make', 'content': enc_content(part), 'kw': dict(kw)}
+                seq2 = {'op': 'make', 'fn': 'make_sequence', 'content': enc_content(part * 2), 'kw': dict(kw, symbol_count=2)}
+                seq1 = {'op': 'make', 'fn': 'make_sequence', 'content': enc_content(part), 'kw': dict(kw, symbol_count=1)}
+                order = [single, seq2, micro, seq1, plain] if n % 2 else [seq2, single, seq1, micro, plain]
+                if not kw or n % 3 == 0:
+                    cases.append({'what': 'history', 'ops': order})
+    return cases
+
+
 def required_labels(tier):
     return ['preempt-once', 'history', 'history-steps', 'schedule', 'concurrent-switches', 'op-save', 'op-reencode', 'op-iter']
 
@@ -979,6 +1000,8 @@ def phases(tier, seed):
              note='single pre-emption point swept over the execution of thread 0 (grid of executed-line counts)'),
         Enum('reencode-grid', lambda: reencode_grid(tier), exhaustive=False,
              note='make / re-encode with the reported parameters / make again, every content length 1..60 (thorough: ..399) of 9 content shapes'),
+        Enum('related-grid', lambda: related_grid(tier), exhaustive=False,
+             note='plain symbol / sequence with chunks of the same length / Micro / non-Micro in one process, content lengths 1..60 (thorough: ..199) x 3 modes'),
         Custom('histories', histories_phase(tier)),
         Search('history-data', history_cases(), n // 2),
         Search('schedules', schedule_cases(), n),
